@@ -9,372 +9,496 @@
 name: str_cmp.empty
 define: VP=str, U_CMP, U_EMPTY, U_OTHER_NONEMPTY
 src: str.c, obj.c
+native: str
+native_includes: str.c
 enforce: spif_str_cmp
 */
 /*@unit
 name: str_cmp.nonempty
 define: VP=str, U_CMP, U_NONEMPTY, U_OTHER_NONEMPTY
 src: str.c, obj.c
+native: str
+native_includes: str.c
 enforce: spif_str_cmp
 */
 /*@unit
 name: str_cmp.other_empty
 define: VP=str, U_CMP, U_NONEMPTY, U_OTHER_EMPTY
 src: str.c, obj.c
+native: str
+native_includes: str.c
 enforce: spif_str_cmp
 */
 /*@unit
 name: str_comp.empty
 define: VP=str, U_COMP, U_EMPTY, U_OTHER_NONEMPTY
 src: str.c, obj.c
+native: str
+native_includes: str.c
 enforce: spif_str_comp
 */
 /*@unit
 name: str_comp.nonempty
 define: VP=str, U_COMP, U_NONEMPTY, U_OTHER_NONEMPTY
 src: str.c, obj.c
+native: str
+native_includes: str.c
 enforce: spif_str_comp
 */
 /*@unit
 name: str_comp.other_empty
 define: VP=str, U_COMP, U_NONEMPTY, U_OTHER_EMPTY
 src: str.c, obj.c
+native: str
+native_includes: str.c
 enforce: spif_str_comp
 */
 /*@unit
 name: str_casecmp.empty
 define: VP=str, U_CASECMP, U_EMPTY, U_OTHER_NONEMPTY
 src: str.c, obj.c
+native: str
+native_includes: str.c
 enforce: spif_str_casecmp
 */
 /*@unit
 name: str_casecmp.nonempty
 define: VP=str, U_CASECMP, U_NONEMPTY, U_OTHER_NONEMPTY
 src: str.c, obj.c
+native: str
+native_includes: str.c
 enforce: spif_str_casecmp
 */
 /*@unit
 name: str_casecmp.other_empty
 define: VP=str, U_CASECMP, U_NONEMPTY, U_OTHER_EMPTY
 src: str.c, obj.c
+native: str
+native_includes: str.c
 enforce: spif_str_casecmp
 */
 /*@unit
 name: str_ncmp.empty
 define: VP=str, U_NCMP, U_EMPTY, U_OTHER_NONEMPTY
 src: str.c, obj.c
+native: str
+native_includes: str.c
 enforce: spif_str_ncmp
 */
 /*@unit
 name: str_ncmp.nonempty
 define: VP=str, U_NCMP, U_NONEMPTY, U_OTHER_NONEMPTY
 src: str.c, obj.c
+native: str
+native_includes: str.c
 enforce: spif_str_ncmp
 */
 /*@unit
 name: str_ncmp.other_empty
 define: VP=str, U_NCMP, U_NONEMPTY, U_OTHER_EMPTY
 src: str.c, obj.c
+native: str
+native_includes: str.c
 enforce: spif_str_ncmp
 */
 /*@unit
 name: str_ncasecmp.empty
 define: VP=str, U_NCASECMP, U_EMPTY, U_OTHER_NONEMPTY
 src: str.c, obj.c
+native: str
+native_includes: str.c
 enforce: spif_str_ncasecmp
 */
 /*@unit
 name: str_ncasecmp.nonempty
 define: VP=str, U_NCASECMP, U_NONEMPTY, U_OTHER_NONEMPTY
 src: str.c, obj.c
+native: str
+native_includes: str.c
 enforce: spif_str_ncasecmp
 */
 /*@unit
 name: str_ncasecmp.other_empty
 define: VP=str, U_NCASECMP, U_NONEMPTY, U_OTHER_EMPTY
 src: str.c, obj.c
+native: str
+native_includes: str.c
 enforce: spif_str_ncasecmp
 */
 /*@unit
 name: str_cmp_with_ptr.empty
 define: VP=str, U_CMP_WITH_PTR, U_EMPTY
 src: str.c, obj.c
+native: str
+native_includes: str.c
 enforce: spif_str_cmp_with_ptr
 */
 /*@unit
 name: str_cmp_with_ptr.nonempty
 define: VP=str, U_CMP_WITH_PTR, U_NONEMPTY
 src: str.c, obj.c
+native: str
+native_includes: str.c
 enforce: spif_str_cmp_with_ptr
 */
 /*@unit
 name: str_casecmp_with_ptr.empty
 define: VP=str, U_CASECMP_WITH_PTR, U_EMPTY
 src: str.c, obj.c
+native: str
+native_includes: str.c
 enforce: spif_str_casecmp_with_ptr
 */
 /*@unit
 name: str_casecmp_with_ptr.nonempty
 define: VP=str, U_CASECMP_WITH_PTR, U_NONEMPTY
 src: str.c, obj.c
+native: str
+native_includes: str.c
 enforce: spif_str_casecmp_with_ptr
 */
 /*@unit
 name: str_ncmp_with_ptr.empty
 define: VP=str, U_NCMP_WITH_PTR, U_EMPTY
 src: str.c, obj.c
+native: str
+native_includes: str.c
 enforce: spif_str_ncmp_with_ptr
 */
 /*@unit
 name: str_ncmp_with_ptr.nonempty
 define: VP=str, U_NCMP_WITH_PTR, U_NONEMPTY
 src: str.c, obj.c
+native: str
+native_includes: str.c
 enforce: spif_str_ncmp_with_ptr
 */
 /*@unit
 name: str_ncasecmp_with_ptr.empty
 define: VP=str, U_NCASECMP_WITH_PTR, U_EMPTY
 src: str.c, obj.c
+native: str
+native_includes: str.c
 enforce: spif_str_ncasecmp_with_ptr
 */
 /*@unit
 name: str_ncasecmp_with_ptr.nonempty
 define: VP=str, U_NCASECMP_WITH_PTR, U_NONEMPTY
 src: str.c, obj.c
+native: str
+native_includes: str.c
 enforce: spif_str_ncasecmp_with_ptr
 */
 /*@unit
 name: str_to_num.empty
 define: VP=str, U_TO_NUM, U_EMPTY
 src: str.c, obj.c
+native: str
+native_includes: str.c
 enforce: spif_str_to_num
 */
 /*@unit
 name: str_to_num.nonempty
 define: VP=str, U_TO_NUM, U_NONEMPTY
 src: str.c, obj.c
+native: str
+native_includes: str.c
 enforce: spif_str_to_num
 */
 /*@unit
 name: str_to_float.empty
 define: VP=str, U_TO_FLOAT, U_EMPTY
 src: str.c, obj.c
+native: str
+native_includes: str.c
 enforce: spif_str_to_float
 */
 /*@unit
 name: str_to_float.nonempty
 define: VP=str, U_TO_FLOAT, U_NONEMPTY
 src: str.c, obj.c
+native: str
+native_includes: str.c
 enforce: spif_str_to_float
 */
 /*@unit
 name: str_get_len
 define: VP=str, U_GET_LEN
 src: str.c, obj.c
+native: str
+native_includes: str.c
 enforce: spif_str_get_len
 */
 /*@unit
 name: str_get_size
 define: VP=str, U_GET_SIZE
 src: str.c, obj.c
+native: str
+native_includes: str.c
 enforce: spif_str_get_size
 */
 /*@unit
 name: str_set_len
 define: VP=str, U_SET_LEN
 src: str.c, obj.c
+native: str
+native_includes: str.c
 enforce: spif_str_set_len
 */
 /*@unit
 name: str_set_size
 define: VP=str, U_SET_SIZE
 src: str.c, obj.c
+native: str
+native_includes: str.c
 enforce: spif_str_set_size
 */
 /*@unit
 name: ustr_cmp.empty
 define: VP=ustr, U_CMP, U_EMPTY, U_OTHER_NONEMPTY
 src: ustr.c, obj.c
+native: str
+native_includes: ustr.c
 enforce: spif_ustr_cmp
 */
 /*@unit
 name: ustr_cmp.nonempty
 define: VP=ustr, U_CMP, U_NONEMPTY, U_OTHER_NONEMPTY
 src: ustr.c, obj.c
+native: str
+native_includes: ustr.c
 enforce: spif_ustr_cmp
 */
 /*@unit
 name: ustr_cmp.other_empty
 define: VP=ustr, U_CMP, U_NONEMPTY, U_OTHER_EMPTY
 src: ustr.c, obj.c
+native: str
+native_includes: ustr.c
 enforce: spif_ustr_cmp
 */
 /*@unit
 name: ustr_comp.empty
 define: VP=ustr, U_COMP, U_EMPTY, U_OTHER_NONEMPTY
 src: ustr.c, obj.c
+native: str
+native_includes: ustr.c
 enforce: spif_ustr_comp
 */
 /*@unit
 name: ustr_comp.nonempty
 define: VP=ustr, U_COMP, U_NONEMPTY, U_OTHER_NONEMPTY
 src: ustr.c, obj.c
+native: str
+native_includes: ustr.c
 enforce: spif_ustr_comp
 */
 /*@unit
 name: ustr_comp.other_empty
 define: VP=ustr, U_COMP, U_NONEMPTY, U_OTHER_EMPTY
 src: ustr.c, obj.c
+native: str
+native_includes: ustr.c
 enforce: spif_ustr_comp
 */
 /*@unit
 name: ustr_casecmp.empty
 define: VP=ustr, U_CASECMP, U_EMPTY, U_OTHER_NONEMPTY
 src: ustr.c, obj.c
+native: str
+native_includes: ustr.c
 enforce: spif_ustr_casecmp
 */
 /*@unit
 name: ustr_casecmp.nonempty
 define: VP=ustr, U_CASECMP, U_NONEMPTY, U_OTHER_NONEMPTY
 src: ustr.c, obj.c
+native: str
+native_includes: ustr.c
 enforce: spif_ustr_casecmp
 */
 /*@unit
 name: ustr_casecmp.other_empty
 define: VP=ustr, U_CASECMP, U_NONEMPTY, U_OTHER_EMPTY
 src: ustr.c, obj.c
+native: str
+native_includes: ustr.c
 enforce: spif_ustr_casecmp
 */
 /*@unit
 name: ustr_ncmp.empty
 define: VP=ustr, U_NCMP, U_EMPTY, U_OTHER_NONEMPTY
 src: ustr.c, obj.c
+native: str
+native_includes: ustr.c
 enforce: spif_ustr_ncmp
 */
 /*@unit
 name: ustr_ncmp.nonempty
 define: VP=ustr, U_NCMP, U_NONEMPTY, U_OTHER_NONEMPTY
 src: ustr.c, obj.c
+native: str
+native_includes: ustr.c
 enforce: spif_ustr_ncmp
 */
 /*@unit
 name: ustr_ncmp.other_empty
 define: VP=ustr, U_NCMP, U_NONEMPTY, U_OTHER_EMPTY
 src: ustr.c, obj.c
+native: str
+native_includes: ustr.c
 enforce: spif_ustr_ncmp
 */
 /*@unit
 name: ustr_ncasecmp.empty
 define: VP=ustr, U_NCASECMP, U_EMPTY, U_OTHER_NONEMPTY
 src: ustr.c, obj.c
+native: str
+native_includes: ustr.c
 enforce: spif_ustr_ncasecmp
 */
 /*@unit
 name: ustr_ncasecmp.nonempty
 define: VP=ustr, U_NCASECMP, U_NONEMPTY, U_OTHER_NONEMPTY
 src: ustr.c, obj.c
+native: str
+native_includes: ustr.c
 enforce: spif_ustr_ncasecmp
 */
 /*@unit
 name: ustr_ncasecmp.other_empty
 define: VP=ustr, U_NCASECMP, U_NONEMPTY, U_OTHER_EMPTY
 src: ustr.c, obj.c
+native: str
+native_includes: ustr.c
 enforce: spif_ustr_ncasecmp
 */
 /*@unit
 name: ustr_cmp_with_ptr.empty
 define: VP=ustr, U_CMP_WITH_PTR, U_EMPTY
 src: ustr.c, obj.c
+native: str
+native_includes: ustr.c
 enforce: spif_ustr_cmp_with_ptr
 */
 /*@unit
 name: ustr_cmp_with_ptr.nonempty
 define: VP=ustr, U_CMP_WITH_PTR, U_NONEMPTY
 src: ustr.c, obj.c
+native: str
+native_includes: ustr.c
 enforce: spif_ustr_cmp_with_ptr
 */
 /*@unit
 name: ustr_casecmp_with_ptr.empty
 define: VP=ustr, U_CASECMP_WITH_PTR, U_EMPTY
 src: ustr.c, obj.c
+native: str
+native_includes: ustr.c
 enforce: spif_ustr_casecmp_with_ptr
 */
 /*@unit
 name: ustr_casecmp_with_ptr.nonempty
 define: VP=ustr, U_CASECMP_WITH_PTR, U_NONEMPTY
 src: ustr.c, obj.c
+native: str
+native_includes: ustr.c
 enforce: spif_ustr_casecmp_with_ptr
 */
 /*@unit
 name: ustr_ncmp_with_ptr.empty
 define: VP=ustr, U_NCMP_WITH_PTR, U_EMPTY
 src: ustr.c, obj.c
+native: str
+native_includes: ustr.c
 enforce: spif_ustr_ncmp_with_ptr
 */
 /*@unit
 name: ustr_ncmp_with_ptr.nonempty
 define: VP=ustr, U_NCMP_WITH_PTR, U_NONEMPTY
 src: ustr.c, obj.c
+native: str
+native_includes: ustr.c
 enforce: spif_ustr_ncmp_with_ptr
 */
 /*@unit
 name: ustr_ncasecmp_with_ptr.empty
 define: VP=ustr, U_NCASECMP_WITH_PTR, U_EMPTY
 src: ustr.c, obj.c
+native: str
+native_includes: ustr.c
 enforce: spif_ustr_ncasecmp_with_ptr
 */
 /*@unit
 name: ustr_ncasecmp_with_ptr.nonempty
 define: VP=ustr, U_NCASECMP_WITH_PTR, U_NONEMPTY
 src: ustr.c, obj.c
+native: str
+native_includes: ustr.c
 enforce: spif_ustr_ncasecmp_with_ptr
 */
 /*@unit
 name: ustr_to_num.empty
 define: VP=ustr, U_TO_NUM, U_EMPTY
 src: ustr.c, obj.c
+native: str
+native_includes: ustr.c
 enforce: spif_ustr_to_num
 */
 /*@unit
 name: ustr_to_num.nonempty
 define: VP=ustr, U_TO_NUM, U_NONEMPTY
 src: ustr.c, obj.c
+native: str
+native_includes: ustr.c
 enforce: spif_ustr_to_num
 */
 /*@unit
 name: ustr_to_float.empty
 define: VP=ustr, U_TO_FLOAT, U_EMPTY
 src: ustr.c, obj.c
+native: str
+native_includes: ustr.c
 enforce: spif_ustr_to_float
 */
 /*@unit
 name: ustr_to_float.nonempty
 define: VP=ustr, U_TO_FLOAT, U_NONEMPTY
 src: ustr.c, obj.c
+native: str
+native_includes: ustr.c
 enforce: spif_ustr_to_float
 */
 /*@unit
 name: ustr_get_len
 define: VP=ustr, U_GET_LEN
 src: ustr.c, obj.c
+native: str
+native_includes: ustr.c
 enforce: spif_ustr_get_len
 */
 /*@unit
 name: ustr_get_size
 define: VP=ustr, U_GET_SIZE
 src: ustr.c, obj.c
+native: str
+native_includes: ustr.c
 enforce: spif_ustr_get_size
 */
 /*@unit
 name: ustr_set_len
 define: VP=ustr, U_SET_LEN
 src: ustr.c, obj.c
+native: str
+native_includes: ustr.c
 enforce: spif_ustr_set_len
 */
 /*@unit
 name: ustr_set_size
 define: VP=ustr, U_SET_SIZE
 src: ustr.c, obj.c
+native: str
+native_includes: ustr.c
 enforce: spif_ustr_set_size
 */
 #include "str.h"
